@@ -71,6 +71,8 @@ def c04(quick):
         S.append((D(mode=mode, nj=2, pre=2, bs=1, inline=True, calls=[dict(n=4, iterfail=3), dict(n=2)]), "dfs", lim))
         S.append((D(mode=mode, nj=3, pre="2*n_jobs", bs="auto", bsizes=[1, 2], calls=[dict(n=12, fail=(7,)), dict(n=5)]), "random", rnd))
         S.append((D(mode=mode, nj=2, pre=2, bs=1, calls=[dict(n=3, iterfail=0), dict(n=2)]), "dfs", lim))
+        S.append((D(mode=mode, nj=2, pre=2, bs=1, calls=[dict(n=3, iterfail="iter"), dict(n=2)]), "dfs", 50))
+        S.append((D(mode=mode, nj=2, pre="all", bs=1, managed=True, calls=[dict(n=3, iterfail="iter"), dict(n=2, iterfail="iter"), dict(n=2)]), "dfs", 50))
         S.append((D(mode=mode, nj=2, pre=2, bs=1, calls=[dict(n=3, iterfail=3), dict(n=2)]), "dfs", lim))
     S.append((D(mode=LIST, nj=2, pre=2, bs=1, rc=False, calls=[dict(n=4, fail=(2,)), dict(n=3)]), "dfs", lim))
     S.append((D(mode=LIST, nj=2, pre=2, bs=1, rc=False, timeout=0.05, calls=[dict(n=4, hang=(1,)), dict(n=3)]), "dfs", lim))
